@@ -265,6 +265,8 @@ impl KeyValueStore {
                 self.wait_list.notify_head();
                 (imm, imm_log, imm_path, imm_trigger)
             };
+            #[cfg(rescrv_blue_verif)]
+            crate::verif::yield_point(5);
             self.poison::<(), SError>(Ok(()))?;
             if Arc::strong_count(&imm_log) != 1 {
                 return Err(logic_error(
@@ -298,6 +300,8 @@ impl KeyValueStore {
                 return Err(err);
             }
             self.tree._ingest(&sst_path, Some(imm_trigger))?;
+            #[cfg(rescrv_blue_verif)]
+            crate::verif::yield_point(6);
             remove_file(sst_path)?;
             if let Some(file_name) = imm_path.file_name() {
                 rename(&imm_path, TRASH_ROOT(&self.root).join(file_name))?;
